@@ -248,7 +248,19 @@ def run(ctx):
                 arg = [x for x in mut if C.is_atom(x) and x[17:20] == "ARG" and x[21] == "E" and int(x[22:26]) == 138]
                 mut += [x[:16] + "B" + "ALA" + x[20:] for x in arg if x[12:16].strip() in ("N", "CA", "C", "O", "CB")]
             mut.append(ln)
-    cases = runbank.base_cases(ctx) + [("3SGB-altloc-mutant-E138-ARG/ALA", C.join(mut), [])] + coupled_starts + ion_constructs(ctx, cfgt) + twin_ion_constructs(ctx) + like_charge_constructs(ctx) + runbank.kit_cases(ctx, every=1 if ctx.thorough() else 5)
+    # the dimer with its C-terminal oxygens under the names OT1 / OT2 (the C-termini of 1HPX sit next to the other chain's
+    # N-terminus and a histidine: whatever is reported for them pairs up like any acid-base pair)
+    hp = C.body(C.test_pdb_text("1HPX"))
+    lastres = {}
+    for ln in hp:
+        if C.is_atom(ln) and ln[:4] == "ATOM":
+            lastres[ln[21]] = C.resid(ln)
+    otl = []
+    for ln in hp:
+        if C.is_atom(ln) and ln[:4] == "ATOM" and C.resid(ln) == lastres[ln[21]] and ln[12:16].strip() in ("O", "OXT"):
+            ln = ln[:12] + (" OT1" if ln[12:16].strip() == "O" else " OT2") + ln[16:]
+        otl.append(ln)
+    cases = runbank.base_cases(ctx) + [("3SGB-altloc-mutant-E138-ARG/ALA", C.join(mut), []), ("1HPX OT1/OT2", C.join(otl), [])] + coupled_starts + ion_constructs(ctx, cfgt) + twin_ion_constructs(ctx) + like_charge_constructs(ctx) + runbank.kit_cases(ctx, every=1 if ctx.thorough() else 5)
     # parameter files that change the desolvation model but none of the configured bounds
     from . import c02
     variants = {"allow005": {"desolvationAllowance": 0.05}, "allow015": {"desolvationAllowance": 0.15},
